@@ -348,6 +348,24 @@ func ZZ_C08_unknown_flag_and_mapping_errors() {
 		lin, _ := mapping.NewLinearlyInterpolatedMapping(0.01)
 		_, err = DecodeDDSketch(b, store.DenseStoreConstructor, lin)
 		zzvAssert("mapping-kind-mismatch-is-an-error", err != nil)
+		// same kind and base, offsets 0 (encoded) vs clearly non-zero (receiver), and the reverse
+		lm := src.m.(*mapping.LogarithmicMapping)
+		_ = lm
+		g := 1.02020202020202
+		shifted, _ := mapping.NewLogarithmicMappingWithGamma(g, []float64{2, -0.5}[zzvChoose("receiverOffset", 2)])
+		zero, _ := mapping.NewLogarithmicMappingWithGamma(g, 0)
+		s0 := NewDDSketch(zero, store.NewSparseStore(), store.NewSparseStore())
+		s0.Add(1.5)
+		e0 := []byte{}
+		s0.Encode(&e0, false)
+		_, err = DecodeDDSketch(e0, store.SparseStoreConstructor, shifted)
+		zzvAssert("offset-mismatch-zero-vs-nonzero-is-an-error", err != nil)
+		s1 := NewDDSketch(shifted, store.NewSparseStore(), store.NewSparseStore())
+		s1.Add(1.5)
+		e1 := []byte{}
+		s1.Encode(&e1, false)
+		_, err = DecodeDDSketch(e1, store.SparseStoreConstructor, zero)
+		zzvAssert("offset-mismatch-nonzero-vs-zero-is-an-error", err != nil)
 	case 2:
 		nb := []byte{}
 		src.s.Encode(&nb, true)
